@@ -23,7 +23,7 @@ PARTS = {'quick': 12, 'thorough': 15}
 WALKS = {'quick': (320, 150), 'thorough': (8000, 400)}
 BUDGET = {'quick': 300, 'thorough': 700}
 REST = ('R_UPD', 'R_WD', 'R_RR', 'R_BIN', 'R_RR6', 'R_RRVPN', 'R_UPDBAD', 'R_UPDNOATTR', 'R_BINBAD')
-ALPHA = list(dict.fromkeys(S.ALPHABET_C01 + ['OPEN_nocap', 'UPD_atoverrun', 'UPD_lsunreach'] + S.ODD_LENGTH))
+ALPHA = list(dict.fromkeys(S.ALPHABET_C01 + ['OPEN_nocap', 'UPD_atoverrun', 'UPD_lsunreach'] + S.ODD_LENGTH + S.LENGTH_EDGE))
 
 
 def register_fuzz(fuzz):
